@@ -7,7 +7,8 @@ def q(name, entry, m, tier='quick'):
     k = 33 + 32 * m
     return Query(f'{name}_m{m}', 'harness', UT.unit_tap, entry, defines=[f'VERIF_ITEM_CAP={k}', 'VERIF_SCRIPT_CAP=24', f'H_TAP_MAXPATH={m}', 'VERIF_HASHLOG_CAP=72'], unwind=k + 4, timeout=1500, object_bits=10, tier=tier,
                  bounded=f'control blocks with at most {m} path nodes have storage (BIP341 allows 128); Iterate is proved as one step from an arbitrary index and running hash (inductive over the path index); leaf scripts of at most 24 bytes', functions=FN)
-QUERIES = [L.COMMITMENT, q('tap_ctor', 'h_tap_ctor', 4), q('tap_iterate', 'h_tap_iterate', 4), q('tap_description', 'h_tap_description', 4),
+from props import C03 as _C03
+QUERIES = [L.COMMITMENT, _C03.CFG_TAPROOT, q('tap_ctor', 'h_tap_ctor', 4), q('tap_iterate', 'h_tap_iterate', 4), q('tap_description', 'h_tap_description', 4),
            q('tap_ctor', 'h_tap_ctor', 16, 'thorough'), q('tap_iterate', 'h_tap_iterate', 16, 'thorough')]
 META = {'level': 'proof', 'trusted_base': TRUSTED + ['stubs/tap_env.h: HashWriter as ghost-logged oracle (serialization of uint8/script/uint256/Span as in serialize.h), XOnlyPubKey::CheckTapTweak as oracle, uint256'],
  'assumptions': ASSUME_COMMON + [
@@ -18,6 +19,6 @@ META = {'level': 'proof', 'trusted_base': TRUSTED + ['stubs/tap_env.h: HashWrite
  'explanation': 'contracts on the real TaprootCommitmentEnv constructor and Iterate against BIP341 with hash and tweak oracles; one Iterate step from an arbitrary (index, running hash) state = inductive step of the Merkle fold'}
 MANIFEST = {
  'text': 'For every control block (up to the modelled path length), leaf script and program: the constructor hashes exactly leaf_version || compact_size(script) || script under the TapLeaf tag and publishes that as the leaf hash later signed over; each Iterate from an arbitrary intermediate state hashes the running hash and the next path node in lexicographic order under the TapBranch tag; after the last node exactly one tweak check (program, control[1..33), running hash, parity bit) decides success. SHA-256 and the curve check are oracles.',
- 'note': 'Path length bounded by storage (4 quick / 16 thorough; the step is index-generic code). Size validation of the control block and the batch twin ComputeTaprootMerkleRoot are not covered.',
+ 'note': 'Path length bounded by storage (4 quick / 16 thorough; the step is index-generic code). The size rule of the control block (33+32m bytes, m <= 128) is decided on the set-up code of Instance::configure_tx_txin (cfg_taproot); the batch twin ComputeTaprootMerkleRoot is not covered.',
  'technique': 'assume/assert contracts with ghost-logged hash/tweak oracles on the real TaprootCommitmentEnv code; inductive step over the path index; CBMC',
  'design_ref': 'DESIGN.md 6 (C05)'}
